@@ -40,6 +40,8 @@ POP = [
     # type names that extend another stored type name (directory / file-name matching in the filesystem source)
     dict(type="malware-analysis", spec_version="2.1", id="malware-analysis--" + U + "a", created=T1, modified=T2, product="alpha", result="benign", labels=["a"]),
     dict(type="x-foo-bar", spec_version="2.1", id="x-foo-bar--" + U + "b", created=T1, modified=T1, name="beta"),
+    # dict-kept content whose timestamp has digits below the millisecond (a datetime-valued filter compares instants, not millisecond-cut values)
+    dict(type="x-foo-baz", spec_version="2.1", id="x-foo-baz--" + U + "c", created=T1, modified="2020-01-02T00:00:00.000400Z", name="gamma"),
     # the only object of its type, and its identifier is written with upper-case hex digits (accepted and stored verbatim)
     dict(type="course-of-action", spec_version="2.1", id="course-of-action--" + U.upper() + "D", created=T1, modified=T2, name="delta", labels=["a"]),
     # a heterogeneous list: the element that carries the sub-property comes AFTER elements that do not
